@@ -111,9 +111,8 @@ class SymbolCounter:
         if node.defines_local:
             self._counts[node.name] += 1
 
-        if node.has_params and node.params:
-            for param in node.params:
-                self._counts[param] += 1
+        for param in self._params(node):
+            self._counts[param] += 1
 
         if node.is_reference and node.is_local and not self.is_bound(node.name):
             self.freevars.add(node.name)
@@ -127,9 +126,16 @@ class SymbolCounter:
         if node.defines_local:
             self._counts[node.name] -= 1
 
-        if node.has_params and node.params:
-            for param in node.params:
-                self._counts[param] -= 1
+        for param in self._params(node):
+            self._counts[param] -= 1
+
+    def _params(self, node):
+        # The names that the body of a rule or class can see as local values:
+        # its parameters and, in a class, its named fields.
+        if not node.has_params:
+            return []
+        fields = [x.name for x in getattr(node, 'members', ()) if x.name]
+        return list(node.params or []) + fields
 
     def is_bound(self, name):
         return self._counts[name] > 0
